@@ -1,5 +1,7 @@
 package message
 
+import "github.com/bluenviron/gomavlib/v3/pkg/message/zzverifalt"
+
 // three-field struct used to reach the sort call of Initialize; the executor then replaces the three
 // descriptors by symbolic ones and examines the real comparator closure (option sort_lemma)
 type MessageVerifTriple struct {
@@ -81,4 +83,37 @@ func verifHarness_C03_user(v2 int) {
 		verifAssert(g.P == pv&0xFF && g.W == w && g.MyName == name && g.One[0] == one && uint64(g.Ext[0]) == verifIteU64(v2 == 1, uint64(ext), 0), "C03/U/read-back-values")
 	}
 	verifReach("C03/U")
+}
+
+// N: two message structs with the same Go name in different packages are different messages: each gets the layout,
+// the sizes and the CRC_EXTRA of its own fields, in whichever order they are set up, and setting one up does not
+// change the other (order 0: the pkg/message struct first; 1: the other one first).
+func verifHarness_C03_same_name(order int) {
+	a := &ReadWriter{Message: &MessageVerifOddities{}}
+	b := &ReadWriter{Message: &zzverifalt.MessageVerifOddities{}}
+	if order == 0 {
+		verifAssert(a.Initialize() == nil, "C03/N/accepted")
+		verifAssert(b.Initialize() == nil, "C03/N/accepted")
+	} else {
+		verifAssert(b.Initialize() == nil, "C03/N/accepted")
+		verifAssert(a.Initialize() == nil, "C03/N/accepted")
+	}
+	cb := verifCrcFold(0xFFFF, []byte("VERIF_ODDITIES uint16_t y uint8_t x "))
+	verifAssert(b.CRCExtra() == byte(cb&0xFF)^byte(cb>>8), "C03/N/crc-extra-of-its-own-fields")
+	verifAssert(len(a.Write(&MessageVerifOddities{}, false).Payload) == 14, "C03/N/size-of-its-own-fields")
+	verifAssert(len(a.Write(&MessageVerifOddities{Ext: [1]uint16{0x0101}}, true).Payload) == 16, "C03/N/extended-size-of-its-own-fields")
+	x, y := verifNondetU8(), verifNondetU16()
+	raw := b.Write(&zzverifalt.MessageVerifOddities{X: x, Y: y}, false)
+	verifAssert(verifEqBytes(raw.Payload, []byte{byte(y), byte(y >> 8), x}), "C03/N/payload-of-its-own-fields")
+	back, err := b.Read(raw, false)
+	verifAssert(err == nil, "C03/N/reads-back")
+	if err == nil {
+		g, ok := back.(*zzverifalt.MessageVerifOddities)
+		verifAssert(ok && g.X == x && g.Y == y, "C03/N/read-back-values")
+	}
+	// a third set-up of the first type gives the same answers as its first one
+	a2 := &ReadWriter{Message: &MessageVerifOddities{}}
+	verifAssert(a2.Initialize() == nil, "C03/N/accepted")
+	verifAssert(a2.CRCExtra() == a.CRCExtra() && len(a2.Write(&MessageVerifOddities{}, false).Payload) == 14, "C03/N/set-up-repeatable")
+	verifReach("C03/N")
 }
